@@ -87,6 +87,8 @@ func featureFor(prop string, idx int) string {
 		return "exit-at-completed"
 	case idx%16 == 1 && in("C11"):
 		return "scale-from-zero"
+	case idx%16 == 15 && in("C04"):
+		return "leftover-canary-service"
 	}
 	return ""
 }
@@ -102,6 +104,8 @@ func GenForCase(prop string, rng *rand.Rand, idx int) *sim.Scenario {
 		fam = []string{"deployment/bluegreen", "cloneset/bluegreen", "deployment/bluegreen", "cloneset/partition", "deployment/canary"}[idx/16%5]
 	case "scale-down-then-advance":
 		fam = []string{"deployment/canary", "deployment/canary", "cloneset/partition", "deployment/bluegreen"}[idx/16%4]
+	case "leftover-canary-service":
+		fam = []string{"deployment/canary", "cloneset/partition", "deployment/bluegreen", "cloneset/bluegreen"}[idx/16%4]
 	case "scale-from-zero":
 		fam = []string{"cloneset/partition", "statefulset/partition", "deployment/partition", "advstatefulset/partition", "cloneset/partition", "deployment/canary"}[idx/16%6]
 	case "spec-grace-zero":
@@ -164,6 +168,20 @@ func genForFamilyF(prop string, rng *rand.Rand, family, feature string) *sim.Sce
 		s.ApproveLag = 0
 		s.Profile = "ctrl-eager"
 		s.Events = append(s.Events, sim.Injected{AtStep: 1 + rng.Intn(2), AtState: "StepPaused", Action: fmt.Sprintf("scale:%d", int(s.Replicas)/2), Immediate: true})
+		return s
+	}
+	if feature == "leftover-canary-service" {
+		// a <service>-canary Service of a revision that no longer exists is already there when the release starts
+		if !s.HasTraffic() {
+			s.Provider = []string{"ingress:nginx", "gateway", "custom"}[rng.Intn(3)]
+			for i := range s.Steps {
+				s.Steps[i].Traffic = 10 + rng.Intn(80)
+			}
+		}
+		s.LeftoverCanarySvc = true
+		if rng.Intn(2) == 0 {
+			s.Events = append(s.Events, sim.Injected{AtStep: 1 + rng.Intn(len(s.Steps)), AtState: states[rng.Intn(len(states))], Action: []string{"rollback", "v3", "disable"}[rng.Intn(3)], Immediate: rng.Intn(2) == 0})
+		}
 		return s
 	}
 	if feature == "scale-from-zero" {
